@@ -151,15 +151,15 @@ var funcSpecs = []funcSpec{
 		params: []string{"(reader_remaining : σ → Nat)"}, fuel: map[int]string{2: "reader_remaining sr + 1"}},
 	{rel: "cmd/age", name: "parseRecipient", abstract: []string{"plugin.NewRecipient", "age.ParseX25519Recipient", "agessh.ParseRecipient"}, opaque: cliOpaque},
 	{rel: "cmd/age", name: "parseIdentity", abstract: []string{"plugin.NewIdentity", "age.ParseX25519Identity"}, opaque: cliOpaque},
+	{rel: "internal/format", name: "(*Stanza).Marshal", abstract: marshalAbstract, opaque: marshalOpaque, threaded: marshalThreaded},
+	{rel: "internal/format", name: "(*Header).MarshalWithoutMAC", abstract: marshalAbstract, opaque: marshalOpaque, threaded: marshalThreaded},
+	{rel: "internal/format", name: "(*Header).Marshal", abstract: append([]string{"format.EncodeToString"}, marshalAbstract...), opaque: marshalOpaque, threaded: marshalThreaded},
 	{rel: "", name: "ParseRecipients", abstract: []string{"age.ParseX25519Recipient"}, opaque: map[string]string{"Recipient": "κ", "X25519Recipient": "κ"}, errInts: true},
 }
 
 // the native recipients: the primitives are abstract
 var nativeAbstract = []string{"curve25519.X25519", "format.EncodeToString", "format.DecodeString", "age.aeadEncrypt", "age.aeadDecrypt", "scrypt.Key"}
 var nativeOpaque = map[string]string{"io.Reader": "κ", "tapeτ": "τ"}
-
-// Marshal: the destination is abstract state, the wrapped base64 encoder on top of it too
-var marshalOpaque = map[string]string{"io.Writer": "δ", "format.WrappedBase64Encoder": "ω", "base64.Encoding": "ε"}
 
 // the plugin client: the connection (what was written to the plugin), the stanza reader on it (what the plugin will
 // still say) and the UI are abstract state
@@ -169,6 +169,12 @@ var pluginThreaded = map[string][]string{"plugin.writeStanza": {"conn"}, "plugin
 
 // cmd/age: whatever a constructor returns is a recipient / an identity
 var cliOpaque = map[string]string{"age.Recipient": "ρ", "plugin.Recipient": "ρ", "age.X25519Recipient": "ρ", "age.Identity": "ι", "plugin.Identity": "ι", "age.X25519Identity": "ι", "plugin.ClientUI": "υ"}
+
+// Marshal: the destination is abstract state; the wrapped base64 encoder on top of it is an abstract handle whose
+// operations work on the destination it was given
+var marshalAbstract = []string{"format.NewWrappedBase64Encoder", "format.Write", "format.Close"}
+var marshalOpaque = map[string]string{"io.Writer": "δ", "format.WrappedBase64Encoder": "ω", "base64.Encoding": "ε"}
+var marshalThreaded = map[string][]string{"format.NewWrappedBase64Encoder": {"w"}, "format.Write": {"ww", "w"}, "format.Close": {"ww", "w"}}
 
 // agessh: the primitives, the key's wire form and its fingerprint are abstract
 var sshAbstract = []string{"curve25519.X25519", "format.EncodeToString", "format.DecodeString", "agessh.aeadEncrypt", "agessh.aeadDecrypt", "agessh.sshFingerprint"}
@@ -213,6 +219,7 @@ type ftr struct {
 	arrInout  map[*types.Func]bool       // translated functions whose *[N]T parameter is handed back
 	structs   map[*types.Named]string    // struct types emitted as Lean structures
 	recvInout map[*types.Func]bool       // translated methods whose receiver is handed back as the last result
+	dstInout  map[*types.Func][]int      // translated functions that hand back abstract destinations (δ) they wrote to: parameter indexes, in result order; the receiver, if handed back too, comes first
 	tapeOf    map[*types.Func]bool       // translated functions that take and hand back the random tape
 }
 
@@ -1365,6 +1372,45 @@ func (c *fctx) translatedCall(x *ast.CallExpr, o *types.Func, fi *FuncInfo, recv
 		parts = append(parts, c.exprAs(a, want))
 	}
 	raw := "(← " + name + " " + strings.Join(parts, " ") + ")"
+	if dsts := c.t.dstInout[o]; len(dsts) > 0 && !c.noHoist {
+		// results, then (the receiver, then) the destinations' new states: hoisted, the states assigned back
+		nres := o.Type().(*types.Signature).Results().Len()
+		t := c.tmp()
+		e, ind := c.curE, c.curInd
+		e.add(ind, "let "+t+" := "+raw)
+		k := nres
+		total := nres + len(dsts)
+		if c.t.recvInout[o] && recv != nil {
+			total++
+		}
+		proj := func(i int) string {
+			p := t + strings.Repeat(".2", i)
+			if i < total-1 {
+				p += ".1"
+			}
+			return p
+		}
+		if c.t.recvInout[o] && recv != nil {
+			c.assignTo(e, ind, recv, proj(k), false)
+			k++
+		}
+		for _, pi := range dsts {
+			c.assignTo(e, ind, x.Args[pi], proj(k), false)
+			k++
+		}
+		c.curE, c.curInd = e, ind
+		switch nres {
+		case 0:
+			return "()"
+		case 1:
+			return proj(0)
+		}
+		var vals []string
+		for i := 0; i < nres; i++ {
+			vals = append(vals, proj(i))
+		}
+		return "(" + strings.Join(vals, ", ") + ")"
+	}
 	if c.t.recvInout[o] && !c.noHoist && recv != nil {
 		nres := o.Type().(*types.Signature).Results().Len()
 		t := c.tmp()
@@ -1559,6 +1605,20 @@ func (c *fctx) toNilable(e ast.Expr) string {
 		return c.nameOf(v)
 	}
 	return "(some " + c.expr(e) + ")"
+}
+
+// localNamed: the variable called name that is in scope at pos (parameters, receiver, locals of the function)
+func (c *fctx) localNamed(name string, pos token.Pos) *types.Var {
+	sc := c.fi.Pkg.Types.Scope().Innermost(pos)
+	for sc != nil && sc != c.fi.Pkg.Types.Scope() {
+		if o := sc.Lookup(name); o != nil {
+			if v, ok := o.(*types.Var); ok && (v.Pos() <= pos || !v.Pos().IsValid()) {
+				return v
+			}
+		}
+		sc = sc.Parent()
+	}
+	return nil
 }
 
 func isScanner(t types.Type) bool {
@@ -2027,10 +2087,55 @@ func (c *fctx) threadedVars(call *ast.CallExpr) []*types.Var {
 				out = append(out, c.tapeVar)
 				continue
 			}
+			found := false
 			for _, a := range call.Args {
 				if id, ok := ast.Unparen(a).(*ast.Ident); ok && id.Name == name {
 					if v, ok := c.info().Uses[id].(*types.Var); ok {
 						out = append(out, v)
+						found = true
+					}
+				}
+			}
+			// the receiver, or a variable of the enclosing function that the callee works on without being handed it
+			if !found {
+				if sel, ok := ast.Unparen(call.Fun).(*ast.SelectorExpr); ok {
+					if id, ok := ast.Unparen(sel.X).(*ast.Ident); ok && id.Name == name {
+						if v, ok := c.info().Uses[id].(*types.Var); ok {
+							out = append(out, v)
+							found = true
+						}
+					}
+				}
+			}
+			if !found {
+				if v := c.localNamed(name, call.Pos()); v != nil {
+					out = append(out, v)
+				}
+			}
+		}
+	}
+	// io.WriteString(dst, …) / fmt.Fprintf(dst, …) on an abstract destination
+	if (f.Pkg().Path() == "io" && f.Name() == "WriteString") || (f.Pkg().Path() == "fmt" && f.Name() == "Fprintf") {
+		if len(call.Args) > 0 {
+			if lt, _ := leanTypeOf(c.typeOf(call.Args[0])); lt == "δ" || lt == "η" {
+				if id, ok := ast.Unparen(call.Args[0]).(*ast.Ident); ok {
+					if v, ok := c.info().Uses[id].(*types.Var); ok {
+						out = append(out, v)
+					}
+				}
+			}
+		}
+	}
+	// a translated function that hands back the destinations it wrote to
+	if f != c.fi.Obj && !c.isAbstract(f) {
+		if fi := c.t.pr.Funcs[f]; fi != nil && c.t.translatable(fi) && !c.t.busy[f] {
+			c.t.translate(fi, c, call)
+			for _, pi := range c.t.dstInout[f] {
+				if pi < len(call.Args) {
+					if id, ok := ast.Unparen(call.Args[pi]).(*ast.Ident); ok {
+						if v, ok := c.info().Uses[id].(*types.Var); ok {
+							out = append(out, v)
+						}
 					}
 				}
 			}
@@ -3371,6 +3476,34 @@ func (t *ftr) translate(fi *FuncInfo, from *fctx, at ast.Node) string {
 	if rv := sig.Recv(); rv != nil && c.isInout(rv) && len(c.inouts) == 1 {
 		t.recvInout[fi.Obj] = true // (with further in-out parameters the method can be translated but not called from translated code)
 	}
+	// destinations handed back (and nothing else but, possibly, the receiver before them)
+	{
+		var idx []int
+		okShape := true
+		for k, io := range c.inouts {
+			if rv := sig.Recv(); rv != nil && io == rv && k == 0 {
+				continue
+			}
+			found := -1
+			for i := 0; i < sig.Params().Len(); i++ {
+				if sig.Params().At(i) == io {
+					found = i
+				}
+			}
+			lt, _ := leanTypeOf(io.Type())
+			if found < 0 || lt != "δ" {
+				okShape = false
+				break
+			}
+			idx = append(idx, found)
+		}
+		if okShape && len(idx) > 0 {
+			t.dstInout[fi.Obj] = idx
+			if rv := sig.Recv(); rv != nil && c.isInout(rv) {
+				t.recvInout[fi.Obj] = true
+			}
+		}
+	}
 	t.done[fi.Obj] = true
 	delete(t.busy, fi.Obj)
 	t.names = append(t.names, name)
@@ -3391,7 +3524,7 @@ func recvTypeNameOf(fi *FuncInfo) string {
 func collectFuncs(pr *Prog, facts map[string]interface{}) *leanFile {
 	f := newLean("Funcs", "Selected small pure functions of the repository, TRANSLATED statement by statement (extract/funcs.go); semantics: AgeModel/GoSem.lean.")
 	t := &ftr{pr: pr, specs: map[*types.Func]*funcSpec{}, done: map[*types.Func]bool{}, busy: map[*types.Func]bool{}, globs: map[types.Object]string{},
-		absOf: map[*types.Func][]absParam{}, arrInout: map[*types.Func]bool{}, structs: map[*types.Named]string{}, recvInout: map[*types.Func]bool{}, tapeOf: map[*types.Func]bool{}}
+		absOf: map[*types.Func][]absParam{}, arrInout: map[*types.Func]bool{}, structs: map[*types.Named]string{}, recvInout: map[*types.Func]bool{}, tapeOf: map[*types.Func]bool{}, dstInout: map[*types.Func][]int{}}
 	curFtr = t
 	var failed []string
 	for i := range funcSpecs {
